@@ -33,7 +33,7 @@ LEVEL = 'exploration'
 TIERS = {
     'quick': {'runs': 3200, 'block': 80, 'run_timeout': 120,
               'wall_cap': 900, 'det_sample': 4},
-    'thorough': {'runs': 96000, 'block': 500, 'run_timeout': 120,
+    'thorough': {'runs': 24000, 'block': 500, 'run_timeout': 120,
                  'wall_cap': 7200, 'det_sample': 8},
 }
 RULE = ('run = seeded dataset (single file / hive / partitioned; 3-6 row '
